@@ -145,6 +145,24 @@ def RetrInv (pr : EProto α) (lr : Option (Retraction α)) (P V : EV α) : Prop 
   | false, some r => P.fw = false ∧ V.fw = false ∧ r.firmwareRetract = false ∧
       r.extrusionAmount = some pr.A ∧ P.depth = pr.A ∧ V.depth = (if r.recoverExcluded then 0 else pr.A)
 
+theorem RetrInv.fw_none {pr : EProto α} {P V : EV α} (hfw : pr.fw = true) (pd : P.depth = 0) (vd : V.depth = 0)
+    (pf : P.fw = false) (vf : V.fw = false) : RetrInv pr none P V := by
+  unfold RetrInv; rw [hfw]; exact ⟨pd, vd, pf, vf⟩
+
+theorem RetrInv.fw_some {pr : EProto α} {P V : EV α} {r : Retraction α} (hfw : pr.fw = true) (pd : P.depth = 0)
+    (vd : V.depth = 0) (lfw : r.firmwareRetract = true) (pf : P.fw = true) (vf : V.fw = !r.recoverExcluded) :
+    RetrInv pr (some r) P V := by
+  unfold RetrInv; rw [hfw]; exact ⟨pd, vd, lfw, pf, vf⟩
+
+theorem RetrInv.of_fw_none {pr : EProto α} {P V : EV α} (hfw : pr.fw = true) (h : RetrInv pr none P V) :
+    P.depth = 0 ∧ V.depth = 0 ∧ P.fw = false ∧ V.fw = false := by
+  unfold RetrInv at h; rw [hfw] at h; exact h
+
+theorem RetrInv.of_fw_some {pr : EProto α} {P V : EV α} {r : Retraction α} (hfw : pr.fw = true)
+    (h : RetrInv pr (some r) P V) :
+    P.depth = 0 ∧ V.depth = 0 ∧ r.firmwareRetract = true ∧ P.fw = true ∧ V.fw = !r.recoverExcluded := by
+  unfold RetrInv at h; rw [hfw] at h; exact h
+
 theorem RetrInv.nonneg {pr : EProto α} {lr : Option (Retraction α)} {P V : EV α} (h : RetrInv pr lr P V) :
     0 ≤ P.depth ∧ 0 ≤ V.depth ∧ V.depth ≤ P.depth := by
   have hA := pr.hA
@@ -806,5 +824,87 @@ theorem moveBody_inv (g90e : Bool) (inch : α) (cfg : Config) (pr : EProto α) (
         unfold recoverBranch insertBeforeLast at this
         dsimp only at this
         exact this
+
+end ERP
+
+namespace ERP
+open T Spec
+set_option linter.unusedSectionVars false
+set_option linter.unusedSimpArgs false
+variable {α : Type} [Field α] [LinearOrder α] [IsStrictOrderedRing α] [MathOps α] [MathSpec α]
+
+theorem applyEZF_e (s : FState α) (ep fr fz : Option α) :
+    (T.applyEZF s ep fr fz).position.e = setLog s.position.e ep ∧
+    (T.applyEZF s ep fr fz).excluding = s.excluding ∧
+    (T.applyEZF s ep fr fz).lastRetraction = s.lastRetraction ∧
+    (T.applyEZF s ep fr fz).pendingCommands = s.pendingCommands := by
+  unfold T.applyEZF; cases fr <;> simp
+
+theorem deltaEOf_eq (s : FState α) (ep : Option α) :
+    T.deltaEOf s ep = cur (setLog s.position.e ep) - cur s.position.e := by
+  unfold T.deltaEOf
+  cases ep with
+  | none => simp [setLog]
+  | some v => rfl
+
+/-- how a command whose E word is `ep` acts on a printer in the file's frame -/
+def ActsAs (g90e : Bool) (inch : α) (s : FState α) (cmd : Cmd α) (ep : Option α) : Prop :=
+  ∀ Q : EV α, Q.exec g90e inch (Code.ofString cmd.code) cmd.words = Q.lin ep
+
+theorem origActs_of (g90e : Bool) (inch : α) (s s1 : FState α) (cmd : Cmd α) (ep : Option α)
+    (ha : ActsAs g90e inch s cmd ep) (habs : s.position.e.absoluteMode = true)
+    (h1 : s1.position.e = setLog s.position.e ep) :
+    OrigActs g90e inch s1 cmd (cur s.position.e) := by
+  intro Q hf hc hd
+  rw [ha Q, h1]
+  rw [h1] at hf
+  have hf' : sameFrame Q.e s.position.e := hf.trans (setLog_frame _ _)
+  cases ep with
+  | none =>
+    rw [EV.lin_none Q hd]
+    exact (EV.goto_self Q _ hc hd).symm
+  | some x =>
+    rw [EV.lin_some Q s.position.e x hf' habs]
+    rfl
+
+/-- **`processLinearMoves`** preserves the extruder invariant; the virtual printer executes the
+unfiltered command. -/
+theorem plm_einv (g90e : Bool) (inch : α) (cfg : Config) (pr : EProto α) (s : FState α) (P V : EV α)
+    (cmd : Cmd α) (ep fr fz : Option α) (xy : List (Option α × Option α)) (h : WF s)
+    (hinv : EInv pr s P V) (hpn : PendingNeutral s) (ha : ActsAs g90e inch s cmd ep)
+    (hproto : if T.isMoveOf fz xy then MoveOK V (T.deltaEOf s ep) else NonMoveOK pr V (T.deltaEOf s ep)) :
+    EInv pr (T.processLinearMoves cfg s cmd ep fr fz xy).1
+      (P.outs g90e inch (fwdOf cmd (T.processLinearMoves cfg s cmd ep fr fz xy).2)) (V.lin ep) := by
+  obtain ⟨e1, e2, e3, e4⟩ := applyEZF_e s ep fr fz
+  have hs1 := applyEZF_WF s ep fr fz h
+  have hcur := h.pos.2.2.2.cur_eq
+  have hn := hinv.retr.nonneg
+  have m : Mid pr (T.applyEZF s ep fr fz) P V (cur s.position.e) := by
+    refine ⟨?_, ?_, ?_, hs1.pos.2.2.2, ?_, ?_, ?_⟩
+    · rw [← hinv.track]; exact hcur
+    · rw [← hinv.track, e1]; exact (setLog_frame _ _).symm
+    · rw [e1, (setLog_frame s.position.e ep).2.2.1]; exact hinv.abs
+    · rw [e1]; exact hinv.frame.trans (setLog_frame _ _).symm
+    · intro he; rw [e2] at he; rw [hinv.sync he]; exact hcur
+    · rw [e3]; exact hinv.retr
+  have horig := origActs_of g90e inch s (T.applyEZF s ep fr fz) cmd ep ha hinv.abs e1
+  have hpn1 : PendingNeutral (T.applyEZF s ep fr fz) := by
+    intro e he; rw [e4] at he; exact hpn e he
+  have hdE : T.deltaEOf s ep = cur (T.applyEZF s ep fr fz).position.e - cur s.position.e := by
+    rw [e1]; exact deltaEOf_eq s ep
+  -- the virtual printer
+  have hV : V.lin ep = V.goto (cur (T.applyEZF s ep fr fz).position.e) := by
+    have := horig V m.vframe m.vcur hn.2.1
+    rw [ha V] at this; exact this
+  rw [hV]
+  simp only [T.processLinearMoves, fwdOf_toResult, toResult_fst]
+  by_cases hm : T.isMoveOf fz xy = true
+  · simp only [hm, if_true] at hproto
+    simp only [hm, Bool.not_true, Bool.false_eq_true, if_false]
+    exact moveBody_inv g90e inch cfg pr _ P V cmd _ _ _ xy m horig hpn1 hdE hproto
+  · have hm' : T.isMoveOf fz xy = false := by simpa using hm
+    simp only [hm', Bool.false_eq_true, if_false] at hproto
+    simp only [hm', Bool.not_false, if_true]
+    exact nonMoveBody_inv g90e inch pr _ P V cmd _ _ m horig hdE hproto
 
 end ERP
